@@ -46,8 +46,15 @@ func zValidMessage(which int) ([]byte, map[string]reflect.Type) {
 		v = map[string]int32{"k": 7}
 	case 4:
 		v = "a string with é"
-	default:
+	case 5:
 		v = []int32{1, 2, 3}
+	case 6: // a list that contains itself
+		return []byte{0x58, 0x92, 0x51, 0x90, 0x91}, tm
+	case 7: // a map whose key is a list that contains itself (x58 x91 x51 x91), value 0
+		return []byte{'H', 0x58, 0x91, 0x51, 0x91, 0x90, 'Z'}, tm
+	default: // an object whose list field contains the object's own list
+		return refCat(refClassDef("ZLists", []string{"ss", "is", "ps"}), []byte{0x60, 0x78, 0x79, 0x90},
+			refCat(refClassDef("ZInner", []string{"n", "s"}), []byte{0x79, 0x61, 0x91, 0x01, 's'})), tm
 	}
 	bs, err := ToBytes(v, nm)
 	vAssume(err == nil)
@@ -57,14 +64,17 @@ func zValidMessage(which int) ([]byte, map[string]reflect.Type) {
 // H_C14_mutated: a valid message with one octet replaced by an arbitrary one at every position, and every
 // prefix of it: the decoder returns; steps and allocations stay bounded by the input size.
 func H_C14_mutated() {
-	msg, tm := zValidMessage(vChoice("msg", 6))
+	msg, tm := zValidMessage(vChoice("msg", 9))
 	in := make([]byte, len(msg))
 	copy(in, msg)
-	if vChoice("damage", 2) == 0 {
+	switch vChoice("damage", 3) {
+	case 0:
 		pos := vChoice("pos", len(msg))
 		in[pos] = vUint8("octet")
-	} else {
+	case 1:
 		in = in[:vChoice("cut", len(msg))]
+	case 2:
+		// undamaged: the message itself (cyclic messages are legal input too)
 	}
 	vAllocBound(65536 + len(in))
 	vStepLimit(100000 + 20000*len(in))
